@@ -60,10 +60,16 @@ def _native_(i):
 
     sig = ", ".join(kinds)
     ns = {}
-    exec(f"def compute(self, {sig}, start, end):\n    return self._compute(dict({', '.join(k + '=' + k for k in kinds)}), start, end)\n", ns)
+    per_chunk = i.get("per_chunk")
+    if per_chunk:
+        # per-chunk processing: compute takes chunk_i and the plugin is told which chunk numbers it is to process
+        exec(f"def compute(self, {sig}, chunk_i, start, end):\n"
+             f"    return self._compute(dict({', '.join(k + '=' + k for k in kinds)}), start, end, chunk_i)\n", ns)
+    else:
+        exec(f"def compute(self, {sig}, start, end):\n    return self._compute(dict({', '.join(k + '=' + k for k in kinds)}), start, end)\n", ns)
 
-    def _compute(self, by_kind, start, end):
-        calls.append(dict(start=int(start), end=int(end),
+    def _compute(self, by_kind, start, end, chunk_i=None):
+        calls.append(dict(start=int(start), end=int(end), chunk_i=None if chunk_i is None else int(chunk_i),
                           rows={k: [(int(r["time"]), int(r["endtime"])) for r in v] for k, v in by_kind.items()},
                           fields={k: list(v.dtype.names) for k, v in by_kind.items()},
                           values={k: {n: v[n].tolist() for n in v.dtype.names if n.startswith("v_")} for k, v in by_kind.items()}))
@@ -94,6 +100,10 @@ def _native_(i):
     p.config = {}
     p.fix_dtype()
     iters = {n: iter(_chunks(n, d["kind"], [tuple(r) for r in d["rows"]], d["cuts"])) for n, d in zip(names, deps)}
+    if per_chunk:
+        p.chunk_number = list(per_chunk)
+        iters = {n: iter([c for j, c in enumerate(_chunks(n, d["kind"], [tuple(r) for r in d["rows"]], d["cuts"])) if j in per_chunk])
+                 for n, d in zip(names, deps)}
     res = dict(error=None, outputs=[])
     try:
         for c in p.iter(iters):
@@ -106,6 +116,15 @@ def _native_(i):
 
 
 def _ens(S, a, r):
+    if a._has("per_chunk") and a.per_chunk:
+        d = a.deps[0]
+        want = [(k, d["cuts"][k], d["cuts"][k + 1]) for k in a.per_chunk]
+        got = [(c["chunk_i"], c["start"], c["end"]) for c in r["calls"]]
+        rows_want = [tuple(x) for x in d["rows"] if any(lo <= x[0] and x[1] <= hi for _, lo, hi in want)]
+        rows_got = [row for c in r["calls"] for row in c["rows"][d["kind"]]]
+        return [(f"per-chunk processing: one compute call per requested chunk number, with that number and that chunk's interval "
+                 f"[got {got}, error {r['error']}]", got == want and r["error"] is None),
+                ("every row of the requested chunks is delivered exactly once", rows_got == rows_want)]
     deps = a.deps
     kinds = sorted({d["kind"] for d in deps})
     ends = {d["cuts"][-1] for d in deps}
@@ -178,6 +197,11 @@ def _gen(rng, tier):
             yield dict(deps=deps, saving=True)
             yield dict(deps=deps, saving=False)
             yield dict(deps=deps, saving=True, mixed=True)
+    # per-chunk processing of a plugin whose compute takes chunk_i (one dependency, consecutive chunk numbers not starting at 0)
+    for rows, cuts in (([[0, 1], [1, 3], [4, 5], [5, 6]], [0, 1, 3, 5, 6]), ([[0, 2], [2, 3], [3, 4]], [0, 2, 3, 4, 6])):
+        for pc in ([1], [1, 2], [2, 3], [0, 1], [3]):
+            yield dict(deps=[dict(kind="k0", rows=rows, cuts=cuts)], saving=True, per_chunk=pc)
+            yield dict(deps=[dict(kind="k0", rows=rows, cuts=cuts)], saving=False, per_chunk=pc)
     for shape in shapes:
         for _ in range(60 if thorough else 12):
             rows_by_kind = {k: rng.choice(rs) for k in set(shape)}
@@ -200,10 +224,11 @@ def _gen(rng, tier):
 
 
 plugin_iter = Contract(
-    F, "Plugin.iter", params=dict(deps="V", saving="bool"), ensures=_ens, raises={},
+    F, "Plugin.iter", params=dict(deps="V", saving="bool", per_chunk="V", mixed="V"), ensures=_ens, raises={},
     harness=Harness(native=_native, gen=_gen,
                     scope="2..3 (thorough: 4) dependencies of 1..3 data kinds on the grid 0..6, 6 row sets per kind (empty, rows touching, rows "
                           "spanning several grid cells), every dependency in its own law-abiding chunking with up to 3 inner cuts and "
                           "zero-duration chunks, equal and unequal ends, saving, non-saving and mixed (multi-output: one never-saved, one always-saved output) plugin; the real Plugin.iter / do_compute / "
-                          "Chunk.split / concatenate / merge driven by hand-made chunk iterators",
+                          "Chunk.split / concatenate / merge driven by hand-made chunk iterators; per-chunk processing (compute takes chunk_i, "
+                          "chunk numbers [1], [1,2], [2,3], [0,1], [3]) of one dependency",
                     nontrivial=lambda i: len(i["deps"]) > 1))
